@@ -22,6 +22,7 @@ use vibesql_types::SqlValue;
 // ---------------------------------------------------------------- helpers
 
 static T_EXEC: std::sync::atomic::AtomicU64 = std::sync::atomic::AtomicU64::new(0);
+static T_SETUP: std::sync::atomic::AtomicU64 = std::sync::atomic::AtomicU64::new(0);
 static T_MODEL: std::sync::atomic::AtomicU64 = std::sync::atomic::AtomicU64::new(0);
 static T_SLOWEST: std::sync::Mutex<(u64, String)> = std::sync::Mutex::new((0, String::new()));
 fn timed<T>(label: &str, f: impl FnOnce() -> T) -> T {
@@ -310,7 +311,9 @@ struct Q {
     named: Vec<String>,
 }
 
-const LITS: &[&str] = &["x", "X", "a b", "a  b", "Y", "y"];
+/// bodies of string literals (already SQL-escaped); several contain the *other* delimiter
+/// characters, which are ordinary content inside '…'
+const LITS: &[&str] = &["x", "X", "a b", "a  b", "Y", "y", "say \"Hi\"", "say \"hi\"", "it`s  A", "it`s a", "o''\"K  z", "o''\"k z"];
 
 fn table_pool(with_views: bool) -> Vec<&'static str> {
     if with_views {
@@ -505,7 +508,9 @@ fn run_history(seed_rng: &mut Rng, opts: &HistoryOpts, len: usize, model: &mut m
         _ => 10000,
     };
     let mut c = Cached::new(max);
+    let t_setup = std::time::Instant::now();
     setup(&mut c, &mut r, opts.views);
+    T_SETUP.fetch_add(t_setup.elapsed().as_micros() as u64, std::sync::atomic::Ordering::Relaxed);
     // pool of queries, each with textual variants
     let mut pool: Vec<(Q, Vec<String>)> = vec![];
     for _ in 0..r.range(4, 8) {
@@ -643,6 +648,32 @@ fn run_history(seed_rng: &mut Rng, opts: &HistoryOpts, len: usize, model: &mut m
 
 // ---------------------------------------------------------------- signature pairs
 
+/// quoted regions of a text, specified directly (matching delimiter closes; `--` comments and
+/// blanks only matter outside): independent of the engine and of the model
+fn regions(sql: &str) -> Vec<(char, String)> {
+    let cs: Vec<char> = sql.chars().collect();
+    let mut out = vec![];
+    let mut i = 0;
+    while i < cs.len() {
+        let c = cs[i];
+        if c == '-' && cs.get(i + 1) == Some(&'-') {
+            while i < cs.len() && cs[i] != '\n' {
+                i += 1;
+            }
+        } else if c == '\'' || c == '"' || c == '`' {
+            let mut body = String::new();
+            i += 1;
+            while i < cs.len() && cs[i] != c {
+                body.push(cs[i]);
+                i += 1;
+            }
+            out.push((c, body));
+        }
+        i += 1;
+    }
+    out
+}
+
 fn check_pair(a: &str, b: &str, model: &mut model::Model, rep: &mut Report, what: &str) -> (bool, bool) {
     let real = QuerySignature::from_sql(a) == QuerySignature::from_sql(b);
     let m = model.ask(&format!("sigeq {} {}", hx(a), hx(b)));
@@ -666,13 +697,99 @@ fn check_pair(a: &str, b: &str, model: &mut model::Model, rep: &mut Report, what
             &format!("text 1: {:?}\ntext 2: {:?}\ntokens 1: {:?}\ntokens 2: {:?}", a, b, ta, tb),
         );
     }
+    // signature level: different quoted text ⇒ different keys
+    if real && regions(a) != regions(b) {
+        rep.fail(
+            FailKind::Oracle,
+            None,
+            &format!("{}: two texts whose string literals / delimited identifiers differ share a cache key", what),
+            &format!("text 1: {:?}\ntext 2: {:?}\nquoted regions 1: {:?}\nquoted regions 2: {:?}", a, b, regions(a), regions(b)),
+        );
+    }
     (real, same_tokens)
+}
+
+/// cache level, as the property states it: run text 1 (cached), then text 2 through the cache
+/// and fresh on the twin; a hit must not return other rows than the fresh execution
+fn literal_cache_cases(rng: &mut Rng, n: u64, model: &mut model::Model, rep: &mut Report) {
+    let mut c = Cached::new(10000);
+    for s in ["CREATE TABLE t0 (a INTEGER, b VARCHAR(20))"] {
+        c.write(s, vec![]);
+    }
+    for (i, l) in LITS.iter().enumerate() {
+        c.write(&format!("INSERT INTO t0 VALUES ({}, '{}')", i, l), vec![]);
+    }
+    let mut served_from_cache = 0u64;
+    for i in 0..n {
+        let mut r = rng.fork();
+        let lit = *r.pick(LITS);
+        let lit2 = *r.pick(LITS);
+        let base = match r.below(7) {
+            0 => format!("SELECT '{}'", lit),
+            1 => format!("SELECT a, b FROM t0 WHERE b = '{}'", lit),
+            2 => format!("SELECT a FROM t0 WHERE b = '{}' OR b = '{}'", lit, lit2),
+            3 => format!("SELECT a AS \"c'{}\" FROM t0 WHERE b = '{}'", if r.chance(1, 2) { "X  y" } else { "x y" }, lit),
+            4 => format!("SELECT '{}' -- it's \"quoted\n , a FROM t0 WHERE b <> '{}'", lit, lit2),
+            5 => format!("SELECT a FROM t0 WHERE b IN ('{}', '{}') AND a >= 0", lit, lit2),
+            _ => format!("SELECT '{}', `a`, \"b\" FROM t0 WHERE a = {}", lit, r.below(12)),
+        };
+        // text 2: differs only inside quoted regions, or only outside them
+        let inside = r.chance(2, 3);
+        let second = variant(&mut r, &base, inside);
+        let second = if inside { second } else { variant(&mut r, &second, false) };
+        let first = c.read(&base);
+        let res = c.read(&second);
+        if res.hit {
+            served_from_cache += 1;
+        }
+        let differ_inside = regions(&base) != regions(&second);
+        rep.case(&format!("litcache {} | {}", base, second), base != second);
+        rep.count(if differ_inside { "literal_pairs_differing_inside_quotes" } else { "literal_pairs_differing_outside_quotes_only" });
+        if res.hit && differ_inside {
+            rep.count("hit_although_quoted_text_differs");
+        }
+        if !same_answer(&first.cached, &first.twin) || !same_answer(&res.cached, &res.twin) {
+            rep.fail(
+                FailKind::Oracle,
+                None,
+                "a query is served the cached result of a different query (texts differ inside a string literal / delimited identifier)",
+                &format!("{};\n-- text 1: {:?}\n-- text 2: {:?}\n-- text 2 through the cache (hit={}): {}\n-- text 2 executed fresh: {}", c.script.join(";\n"), base, second, res.hit, res.cached.brief(), res.twin.brief()),
+            );
+            c.cache.clear();
+            c.trace.clear();
+            c.expect.clear();
+            c.keys.clear();
+        }
+        check_pair(&base, &second, model, rep, "literal pair");
+        if i < 2 {
+            rep.sample(serde_json::json!({"kind": "literal pair through the cache", "text1": base, "text2": second, "hit": res.hit}));
+        }
+        if c.script.len() > 400 {
+            c.model_check(model, rep, "literal cache cases");
+            c.script.truncate(16);
+            c.trace.clear();
+            c.expect.clear();
+            c.cache.clear();
+            c.keys.clear();
+        }
+    }
+    rep.add("literal_pairs_second_text_served_from_cache", served_from_cache);
+    c.model_check(model, rep, "literal cache cases");
 }
 
 fn sig_probes(model: &mut model::Model, rep: &mut Report) {
     // (text1, text2, must share a key?)
     let corpus: &[(&str, &str, bool)] = &[
         ("SELECT 'A'", "SELECT 'a'", false),
+        ("SELECT 'say \"Hi\"'", "SELECT 'say \"hi\"'", false),
+        ("SELECT 'it`s  A'", "SELECT 'it`s A'", false),
+        ("SELECT \"a'B\" FROM t", "SELECT \"a'b\" FROM t", false),
+        ("SELECT `a\"B` FROM t", "SELECT `a\"b` FROM t", false),
+        ("SELECT 'x''\"Q  r'", "SELECT 'x''\"Q r'", false),
+        ("SELECT 1 -- \"c\n, 'A'", "SELECT 1 -- \"c\n, 'a'", false),
+        ("SELECT 'a`' , 'B'", "SELECT 'a`' , 'b'", false),
+        ("SELECT 'say \"Hi\"' FROM T", "select  'say \"Hi\"'\nfrom t", true),
+        ("SELECT 'a\"' , X", "SELECT 'a\"' , x", true),
         ("SELECT 'a  b'", "SELECT 'a b'", false),
         ("SELECT \"Ab\" FROM t", "SELECT \"ab\" FROM t", false),
         ("SELECT `Ab` FROM t", "SELECT `ab` FROM t", false),
@@ -713,7 +830,10 @@ fn sig_probes(model: &mut model::Model, rep: &mut Report) {
 
 fn gen_text(r: &mut Rng) -> String {
     let idents = ["t", "T1", "users", "a", "b", "Col", "x_y"];
-    let lits = ["'A'", "'a'", "'a b'", "'a  b'", "'it''s'", "''", "'-- no'", "\"Id\"", "\"id\"", "`q`", "'x\ny'"];
+    let lits = [
+        "'A'", "'a'", "'a b'", "'a  b'", "'it''s'", "''", "'-- no'", "\"Id\"", "\"id\"", "`q`", "'x\ny'",
+        "'say \"Hi\"'", "'say \"hi\"  x'", "'it`s  A'", "\"a'B  c\"", "`a'B\"C`", "'x''\"Q  r'", "'p`q\"R''s T'", "\"w`X y\"",
+    ];
     let kws = ["SELECT", "select", "FROM", "WHERE", "and", "OR", "IN", "(", ")", ",", "=", "<", "+", "-", "*", "1", "23", "4.5"];
     let mut s = String::new();
     for i in 0..r.range(1, 12) {
@@ -1138,6 +1258,11 @@ fn finding_probe(rep: &mut Report, model: &mut model::Model, name: &str, opts: H
 }
 
 fn main() {
+    // every SelectExecutor (one per query and per evaluated subquery) allocates a zeroed 10 MB arena;
+    // keep such blocks on mmap so that glibc hands out fresh zero pages instead of memset-ing 10 MB each time
+    unsafe {
+        libc::mallopt(libc::M_MMAP_THRESHOLD, 1 << 20);
+    }
     engine::silence_panics();
     let args = Args::parse("C25");
     let mut rep = Report::new(
@@ -1162,7 +1287,7 @@ fn main() {
         let mut c = Cached::new(100);
         let mut r = Rng::new(3);
         setup(&mut c, &mut r, false);
-        for (a, b) in [("SELECT 'A'", "SELECT 'a'"), ("SELECT 'a  b'", "SELECT 'a b'"), ("SELECT a FROM t0 WHERE b = 'x'", "SELECT a FROM t0 WHERE b = 'X'"), ("SELECT 1 -- c\n+1", "SELECT 1 -- c +1")] {
+        for (a, b) in [("SELECT 'say \"Hi\"'", "SELECT 'say \"hi\"'"), ("SELECT 'it`s  A'", "SELECT 'it`s A'"), ("SELECT 'A'", "SELECT 'a'"), ("SELECT 'a  b'", "SELECT 'a b'"), ("SELECT a FROM t0 WHERE b = 'x'", "SELECT a FROM t0 WHERE b = 'X'"), ("SELECT 1 -- c\n+1", "SELECT 1 -- c +1")] {
             c.read(a);
             let res = c.read(b);
             rep.case(&format!("literal-probe {}", b), true);
@@ -1237,6 +1362,8 @@ fn main() {
     }
 
     eprintln!("[c25] probes done {:?}", t_start.elapsed());
+    // ---- 1b. literal pairs through the cache
+    literal_cache_cases(&mut rng, args.n(500, 15000), &mut model, &mut rep);
     // ---- 2. signature pairs
     let n_pairs = args.n(1500, 20000);
     for i in 0..n_pairs {
@@ -1315,6 +1442,6 @@ fn main() {
             rep.sample(serde_json::json!({"kind": "history", "class": class, "length": len}));
         }
     }
-    eprintln!("[c25] histories done {:?}; engine exec {} ms, model trace {} ms, slowest {:?}", t_start.elapsed(), T_EXEC.load(std::sync::atomic::Ordering::Relaxed) / 1000, T_MODEL.load(std::sync::atomic::Ordering::Relaxed) / 1000, T_SLOWEST.lock().unwrap());
+    eprintln!("[c25] histories done {:?}; engine exec {} ms (history setup {} ms), model trace {} ms, slowest {:?}", t_start.elapsed(), T_EXEC.load(std::sync::atomic::Ordering::Relaxed) / 1000, T_SETUP.load(std::sync::atomic::Ordering::Relaxed) / 1000, T_MODEL.load(std::sync::atomic::Ordering::Relaxed) / 1000, T_SLOWEST.lock().unwrap());
     std::process::exit(rep.finish());
 }
